@@ -162,7 +162,7 @@ static void check_mutations(void) {
 }
 
 int main(int argc, char **argv) {
-	h_init();
+	h_init(); h_watchdog(5, 12);	/* 60 s of CPU inside one element = the call under test does not return */
 	if (argc < 3) return 2;
 	int dump = !strcmp(argv[1], "dump");
 	int thorough = !dump && !strcmp(argv[2], "thorough"); int shard = dump ? 0 : atoi(argv[3]), nsh = dump ? 1 : atoi(argv[4]);
